@@ -235,6 +235,8 @@ func typeName(tf byte) string {
 		return "block"
 	case tar.TypeFifo:
 		return "fifo"
+	case tar.TypeXGlobalHeader:
+		return "xglobal"
 	}
 	return fmt.Sprintf("type-%d", tf)
 }
